@@ -649,7 +649,7 @@ func (f *File) CopySampleData(w io.Writer, rs io.ReadSeeker, trak *TrakBox,
 				for {
 					end := min(workLen, workPos+nrLeft)
 					n, err := rs.Read(workSpace[workPos:end])
-					if err != nil {
+					if err != nil && !(err == io.EOF && n > 0) {
 						return err
 					}
 					nrLeft -= n
